@@ -35,6 +35,7 @@ pub struct Rec {
     viol_seen: BTreeMap<String, u64>,
     samples: BTreeMap<String, usize>,
     sets: BTreeMap<String, std::collections::BTreeSet<String>>,
+    viol_total: u64,
     pub sample_cap: usize,
     pub viol_detail_cap: u64,
 }
@@ -53,6 +54,7 @@ impl Rec {
             viol_seen: BTreeMap::new(),
             samples: BTreeMap::new(),
             sets: BTreeMap::new(),
+            viol_total: 0,
             sample_cap: 3,
             viol_detail_cap: 3,
         }
@@ -86,7 +88,11 @@ impl Rec {
         }
     }
     /// A violation of `prop` with signature `sig` (stable: no seeds, no operand values).
+    pub fn violations_recorded(&self) -> u64 {
+        self.viol_total
+    }
     pub fn violation(&mut self, prop: &str, sig: &str, detail: &str, replay: &str) {
+        self.viol_total += 1;
         let key = format!("{}|{}", prop, sig);
         let n = self.viol_seen.entry(key).or_insert(0);
         *n += 1;
